@@ -65,7 +65,8 @@ the source tree); only _mutants/ remains. Before you finish, verify each change 
 worktree: copy the demonstration in, run it (passes), `git apply _mutants/mK.diff`, build, run the
 demonstration (fails), remove the demonstration, run the suite (passes), `git checkout -- .`.
 If you notice, while reading the code, a place where the UNCHANGED code already breaks the property,
-say so in a final section `## Side remarks` of README.md (what input/schedule, which lines).
+say so in a separate file _mutants/SIDE_REMARKS.md (one bullet per remark: what input / schedule / fault,
+which lines, whether you reproduced it with a throw-away test or only read the code).
 Your final message should just summarise the two changes in a few lines.
 """ % (
     "" if not is_py else "; for the Python controller: `python3 -m py_compile conf/route_control.py` and `python3 -m unittest conf/test_route_control.py` if present",
